@@ -717,6 +717,10 @@ def solve_matrix(matrix, mode=EXACT):
     fs = [Factoid(f) if isinstance(f, collections.abc.Iterable) else f for f in matrix]
     db = dict()
     for ft in fs:
+        if ft.is_true_factoid():
+            continue
+        elif ft.is_false_factoid():
+            return "UNSAT", Contr(ASM(ft))
         df = dfactoid(ft, ASM(ft))
         # The elimination steps assume that every factoid in the database has been
         # through the gcd check (see one_var_analysis), so normalize the input as well.
@@ -856,7 +860,11 @@ class OmegaHOL:
 
     def handle_unsat_result(self, res):
         if isinstance(res, Contr):
-            return self.handle_unsat_result(res.deriv)
+            pt = self.handle_unsat_result(res.deriv)
+            if pt.prop.is_less_eq() and pt.prop.arg.is_number(): # 0 <= -3 |- 0 <= -3
+                pt_less_zero = proofterm.ProofTerm('int_const_ineq', term.less(term.IntType)(pt.prop.arg, term.Int(0)))
+                return logic.apply_theorem('int_zero_less_eq_neg', pt_less_zero, pt)
+            return pt
         
         elif isinstance(res, ASM):
             return proofterm.ProofTerm.assume(self.fact_hol[res.t])
